@@ -22,15 +22,18 @@ Fixpoint unbump (i : N) (l : list (N * N)) : list (N * N) :=
   | (k, c) :: r => if k =? i then (k, c - 1) :: r else (k, c) :: unbump i r   (* saturating_sub *)
   end.
 
-(* gc(): retain rows with count > 0 or instant >= visible; watermark := max(old, lowest_retained - 1).
-   The fold reproduces `match lowest_retained { 0 => k, lo => lo.min(k) }` in table order. *)
+(* gc(): retain rows with count > 0 or instant >= visible;
+   watermark := max(old, lowest_retained - 1), lowest_retained = min retained instant,
+   or the visible seqno when nothing is retained *)
 Definition tr_gc (t : tracker) : tracker :=
   let thr := visible t in
   let kept := filter (fun p => (0 <? snd p) || (thr <=? fst p)) (tdata t) in
-  let lowest := fold_left (fun lo p => if lo =? 0 then fst p else N.min lo (fst p)) kept 0 in
-  let lowest' := match kept with [] => thr | _ => lowest end in
+  let lowest := match kept with
+                | [] => thr
+                | p :: r => fold_left (fun lo q => N.min lo (fst q)) r (fst p)
+                end in
   {| visible := visible t; tdata := kept; freed := freed t;
-     lowest_freed := N.max (lowest_freed t) (lowest' - 1) |}.
+     lowest_freed := N.max (lowest_freed t) (lowest - 1) |}.
 
 Definition tr_open (t : tracker) : tracker * N :=
   let i := visible t in
